@@ -61,7 +61,8 @@ def run_correspondence(ck, tab, T, per_class, depth, label="Cases_C01"):
     for c in T.order:
         for j in range(per_class):
             cases.append({"tag": "probe", "tree": gen.tree(c, depth if j else min(depth, 2), full=(j == 0))})
-    res = ck.impl("gds_impl.py", {"order": order, "cases": cases}, timeout=1200)["results"]
+    out = ck.try_impl("gds_impl.py", {"order": order, "cases": cases}, timeout=900, label="all-classes")
+    res = out["results"] if out else []
     usable = []
     for case, r in zip(cases, res):
         c = case["tree"]["cls"]
@@ -122,7 +123,8 @@ def run_documents(ck, T, n, depth, prop="C01"):
     gen = gdsgen.Gen(T, ck.rng)
     order = {c: T.field_order(c) for c in T.order}
     cases = [{"tag": "neuroml", "tree": gen.tree("NeuroMLDocument", depth, full=(j == 0))} for j in range(n)]
-    res = ck.impl("gds_impl.py", {"mode": "document", "order": order, "cases": cases}, timeout=1200)["results"]
+    out = ck.try_impl("gds_impl.py", {"mode": "document", "order": order, "cases": cases}, timeout=400, label="documents")
+    res = out["results"] if out else []
     for case, r in zip(cases, res):
         ck.tally("document")
         size = len(json.dumps(r.get("obj", "")))
@@ -203,7 +205,8 @@ def directed_search(ck, T, diag, prop="C01"):
             cases.append({"tag": "probe", "tree": gen.tree(c, 2, full=(j == 0)), "why": [c, "random", ""]})
     if not cases:
         return 0
-    res = ck.impl("gds_impl.py", {"order": order, "cases": cases}, timeout=900)["results"]
+    out = ck.try_impl("gds_impl.py", {"order": order, "cases": cases}, timeout=240, label="directed")
+    res = out["results"] if out else []
     found = 0
     for case, r in zip(cases, res):
         c = case["tree"]["cls"]
@@ -220,6 +223,43 @@ def directed_search(ck, T, diag, prop="C01"):
             ck.witness("%s:%s:%s:%s" % (prop, c, case["why"][1], case["why"][2]), bad, input=case, expected=r.get("obj"),
                        observed=r.get("back"), broken="Inst_C01.v:wf_ok")
     return found
+
+
+def directed_by_errors(ck, T, errors, prop="C01"):
+    """the translator refused a statement of some class: exercise exactly those classes on the real code
+    (several instances in one process, every member populated, alone and inside a document)"""
+    import re
+    classes = []
+    for e in errors:
+        m = re.match(r"(\w+)[.:]", e)
+        if m and m.group(1) in T.C and m.group(1) not in classes:
+            classes.append(m.group(1))
+    if not classes:
+        return
+    diag = [(c, [("translator-refused", ek["py"]) for ek in T.exp_kids(c)][:6] + [("translator-refused", ea["py"]) for ea in T.exp_attrs(c)][:6])
+            for c in classes[:20]]
+    directed_search(ck, T, diag, prop)
+    # inside documents, twice, through the real writer/loader
+    gen = gdsgen.Gen(T, ck.rng)
+    order = {c: T.field_order(c) for c in T.order}
+    holders = []
+    for c in classes[:20]:
+        for ek in T.exp_kids("NeuroMLDocument"):
+            if T.child_class("NeuroMLDocument", ek["py"], None) == c and ek["kind"] == "objlist":
+                holders.append((c, ek["py"]))
+    cases = []
+    for c, member in holders:
+        for _ in range(2):
+            cases.append({"tag": "neuroml", "tree": {"cls": "NeuroMLDocument", "kw": [["id", {"s": "d"}], [member, {"l": [gen.tree(c, 2, True), gen.tree(c, 2, True)]}]]}})
+    if cases:
+        out = ck.try_impl("gds_impl.py", {"mode": "document", "order": order, "cases": cases}, timeout=240, label="directed-documents")
+        for case, r in zip(cases, out["results"] if out else []):
+            if "err" in r:
+                ck.witness(prop + ":document:write-or-load-raises", r["err"][:300], input=case)
+            elif r["back0"] != r["obj"] or r["back1"] != r["back0"] or not r["bytes_stable"]:
+                ck.witness(diff_key(prop, r["obj"], r["back0"]) if r["back0"] != r["obj"] else prop + ":document:not-a-fixed-point",
+                           "a document holding two %s does not survive write/load cycles unchanged" % case["tree"]["kw"][1][0],
+                           input=case, expected=r["obj"], observed=r["back1"])
 
 
 def wf_obligations(ck, T, prop="C01"):
@@ -257,6 +297,8 @@ def run(ck):
         return
     T = bindings.Tables(tab)
     glue_facts(ck)
+    if tab["errors"]:
+        directed_by_errors(ck, T, tab["errors"])
     if wf_obligations(ck, T):
         ck.compile_props()
     else:
